@@ -3,6 +3,7 @@ import S3V.Model.DtoRange
 import S3V.Model.DtoCopySource
 import S3V.Model.DtoTimestamp
 import S3V.Model.DtoContentType
+import S3V.Model.HttpScalar
 import S3V.Spec.Dto
 /-!
 Driver for component `dto` (C14). Case lines: see `harness/src/bin/h_dto.rs`.
@@ -399,6 +400,52 @@ def judgeCtype (id : String) (s : Bytes) (res reparse : String) : String :=
       if res ≠ m || reparse ≠ m2 then disagree id (m ++ " " ++ m2) (res ++ " " ++ reparse)
       else agree id (if p.params.isEmpty then "ctype-subset" else "ctype-subset-params")
 
+
+/-! ### scalar header members (C02; `TryFromHeaderValue` for bool, i32, i64, String) -/
+
+/-- specification, independent of the model: `["+" | "-"] 1*DIGIT` in range (RFC 9110 numerals as Smithy's integer
+    members are written; a client library writes the plain decimal form) -/
+def specInt (lo hi : Int) (t : Bytes) : Option Int :=
+  let (neg, ds) := match t with
+    | 45 :: r => (true, r)
+    | 43 :: r => (false, r)
+    | _ => (false, t)
+  if ds.isEmpty || !ds.all (fun c => 48 ≤ c && c ≤ 57) then none
+  else
+    let v : Int := (ds.foldl (fun a c => a * 10 + (c.toNat - 48)) 0 : Nat)
+    let i := if neg then -v else v
+    if lo ≤ i && i ≤ hi then some i else none
+
+def judgeHScalar (id ty : String) (t : Bytes) (res : String) : String :=
+  open S3V.HttpScalar in
+  let showI : Option Int → String := fun o => match o with | some i => s!"ok:{i}" | none => "err"
+  let showB : Option Bool → String := fun o => match o with | some true => "ok:true" | some false => "ok:false" | none => "err"
+  let admitted := t.all fun b => (b ≥ 32 && b != 127) || b == 9
+  -- specification first
+  let spec : Option String :=
+    if !admitted then some "nohv"
+    else match ty with
+      | "i32" => some (showI (specInt (-2147483648) 2147483647 t))
+      | "i64" => some (showI (specInt (-9223372036854775808) 9223372036854775807 t))
+      | "bool" => some (if t == "true".toUTF8.toList || t == "True".toUTF8.toList then "ok:true"
+                        else if t == "false".toUTF8.toList || t == "False".toUTF8.toList then "ok:false" else "err")
+      | "string" => some (if t.all (fun b => (32 ≤ b && b < 127) || b == 9) then "ok:" ++ hx t else "err")
+      | _ => none
+  let model : Option String :=
+    if !valueAdmitted t then some "nohv"
+    else match ty with
+      | "i32" => some (showI (hdrI32 t))
+      | "i64" => some (showI (hdrI64 t))
+      | "bool" => some (showB (hdrBool t))
+      | "string" => some (match hdrString t with | some s => "ok:" ++ hx s | none => "err")
+      | _ => none
+  match spec, model with
+  | some sp, some m =>
+    if res ≠ sp then specfail id ("scalar-" ++ ty) s!"text={hx t} spec={sp} impl={res}"
+    else if res ≠ m then disagree id m res
+    else agree id ("hscalar-" ++ ty ++ "-" ++ ((res.splitOn ":").headD ""))
+  | _, _ => badline id
+
 end DtoDrv
 
 open DtoDrv in
@@ -435,6 +482,10 @@ def judge (fs : List String) : String :=
       match unhx b, unhx k, optHexDecode v with
       | some b, some k, some v => judgeCsRoundtrip id b k v text reparse
       | _, _, _ => badline id
+    | "hscalar", [ty, t], [res] =>
+      match unhx t with
+      | some t => judgeHScalar id ty t res
+      | none => badline id
     | "ctype", [s], [res, reparse] =>
       match unhx s with
       | some s => judgeCtype id s res reparse
